@@ -58,6 +58,15 @@ def libCall (id : String) (args : List Val) : R Val :=
   | "Nil", [] => .ok .nil
   | "Half", [.f64 x] => .ok (.f64 (x / 2))
   | "I64", [.int .int64 n] => .ok (.int .int64 n)
+  | "K8", [.int .int8 n] => .ok (.int .int8 n)
+  | "K16", [.int .int16 n] => .ok (.int .int16 n)
+  | "K32", [.int .int32 n] => .ok (.int .int32 n)
+  | "KU", [.int .uint n] => .ok (.int .uint n)
+  | "KU8", [.int .uint8 n] => .ok (.int .uint8 n)
+  | "KU16", [.int .uint16 n] => .ok (.int .uint16 n)
+  | "KU32", [.int .uint32 n] => .ok (.int .uint32 n)
+  | "KU64", [.int .uint64 n] => .ok (.int .uint64 n)
+  | "KF32", [.f32 x] => .ok (.f32 x)
   | _, _ => .error .type_
 
 def regexTable : Sexp → List (String × String × Option Bool)
